@@ -2,7 +2,7 @@
    tangents are unit vectors orthogonal to the normal.  Statements only; proofs are in
    Proofs/Normals.v (any commutative ring) and Proofs/NormalsR.v (real numbers). *)
 From Coq Require Import List ZArith Ring.
-From PC Require Import Model.Normals Proofs.Normals.
+From PC Require Import Model.Normals Proofs.Normals Proofs.NormalsR.
 Import ListNotations.
 
 Section AnyRing.
@@ -99,3 +99,29 @@ Example C18_tangent_nonvacuous :
   let n := (0,0,1)%Z in let t := (3,-2,7)%Z in
   dot z_ops n n = 1%Z /\ project z_ops n t = (3,-2,0)%Z /\ dot z_ops n (vscale z_ops 5%Z (project z_ops n t)) = 0%Z.
 Proof. vm_compute. repeat split. Qed.
+
+(* ---------------------------------------------------------------- real numbers: unit length *)
+(* toUnitVec / normalize_v3 of a non-zero vector has length 1 *)
+Theorem C18_unit : forall v : RV, v <> vzero r_ops -> rdot (runit v) (runit v) = rI r_ops.
+Proof. exact runit_unit. Qed.
+Print Assumptions C18_unit.
+
+(* the implicit normal of a non-degenerate triangle IS the unit right-hand normal of its three
+   vertices (the three positive 1/length factors of C18_face_normal_direction cancel) *)
+Theorem C18_face_normal_is_unit_right_hand : forall p0 p1 p2 : RV,
+  rh_normal r_ops p0 p1 p2 <> vzero r_ops ->
+  tri_normal r_ops rlinv p0 p1 p2 = runit (rh_normal r_ops p0 p1 p2) /\
+  rdot (tri_normal r_ops rlinv p0 p1 p2) (tri_normal r_ops rlinv p0 p1 p2) = rI r_ops.
+Proof. exact tri_normal_unit_rh. Qed.
+Print Assumptions C18_face_normal_is_unit_right_hand.
+
+(* a normalised Gram-Schmidt tangent is a unit vector orthogonal to the unit normal *)
+Theorem C18_tangent_unit_orthogonal : forall n t : RV,
+  rdot n n = rI r_ops -> project r_ops n t <> vzero r_ops ->
+  rdot (runit (project r_ops n t)) (runit (project r_ops n t)) = rI r_ops /\
+  rdot n (runit (project r_ops n t)) = rO r_ops.
+Proof.
+  intros n t Hn Hp. split; [apply runit_unit; exact Hp|].
+  apply (project_scaled_orthogonal r_ops Rth). exact Hn.
+Qed.
+Print Assumptions C18_tangent_unit_orthogonal.
